@@ -831,7 +831,8 @@ func (en *Engine) checkWrite(st *State, r *Region, path []PathEl, off, n *Term, 
 		return
 	}
 	if !wf.entry[r] {
-		if r.kind != "global" || r.global == nil || r.global.Pkg == nil || !modulePkg(r.global.Pkg.Pkg.Path()) {
+		_, fromInit := en.initMem[r]
+		if !fromInit && (r.kind != "global" || r.global == nil || r.global.Pkg == nil || !modulePkg(r.global.Pkg.Pkg.Path())) {
 			return // memory allocated by this call
 		}
 	}
